@@ -358,6 +358,9 @@ class Episode(object):
                     ent[k] = wc['opts'][k]
             if i in self.ini_np:
                 ent['numprocesses'] = self.ini_np[i]
+            for hname, spec in (wc.get('ini_hooks') or {}).items():
+                # spec: 'fn' or 'fn, flag' (functions of circus_sim.hookmods)
+                ent['hooks.%s' % hname] = 'circus_sim.hookmods.' + spec
             ws.append(ent)
         envs = [(self.cfg['watchers'][i]['name'], e)
                 for i, e in sorted(self.ini_env.items())]
